@@ -13,6 +13,7 @@ import (
 	"verifmc/hub"
 
 	mhubtypes "github.com/MinterTeam/mhub2/module/x/mhub2/types"
+	oracletypes "github.com/MinterTeam/mhub2/module/x/oracle/types"
 )
 
 // Bridge is the closed-system scenario family shared by C01, C04, C10, C12, C13:
@@ -45,6 +46,7 @@ type BridgeCfg struct {
 	Timeout  int64           // OutgoingTxTimeout (seconds) used by Next(big)
 	Seeds    [][]engine.Op
 	MaxCancelID int64
+	NoPrices bool
 }
 
 type Bridge struct {
@@ -73,7 +75,7 @@ func (b *Bridge) SeedPaths() [][]engine.Op {
 	return b.Cfg.Seeds
 }
 
-const bridgeInitBal = 1_000_000
+const bridgeInitBal = 1_000_000_000_000_000_000
 
 func (b *Bridge) Genesis() hub.Genesis {
 	bal := sdk.Coins{}
@@ -91,6 +93,13 @@ func (b *Bridge) Genesis() hub.Genesis {
 			ExternalDecimals: t.Dec, Commission: sdk.NewDec(t.CommissionBP).QuoInt64(10000)})
 	}
 	g.Hub.TokenInfos = &mhubtypes.TokenInfos{TokenInfos: infos}
+	if !b.Cfg.NoPrices {
+		var pl []*oracletypes.Price
+		for i, n := range []string{"eth", "ethereum/gas", "bnb", "bsc/gas", "hub"} {
+			pl = append(pl, &oracletypes.Price{Name: n, Value: sdk.NewDec(int64(3 + i))})
+		}
+		g.Oracle.Prices = &oracletypes.Prices{List: pl}
+	}
 	p := *g.Hub.Params
 	if b.Cfg.Timeout > 0 {
 		p.OutgoingTxTimeout = uint64(b.Cfg.Timeout) * 1000
@@ -685,6 +694,9 @@ func (b *Bridge) doExec(in *hub.Instance, g *bridgeGhost, op engine.Op, st *engi
 		g.Custody[ck] = new(big.Int)
 	}
 	for _, tx := range bt.Transactions {
+		if isCold(ch, tx.ExternalRecipient) {
+			continue // moved to cold storage: still custody
+		}
 		g.Custody[ck].Sub(g.Custody[ck], tx.Token.Amount.BigInt())
 	}
 	g.ExecUnobs = append(g.ExecUnobs, extBatch{ch, tok, nonce})
@@ -774,6 +786,8 @@ func bridgeCfgFor(prop, tier string) (BridgeCfg, engine.Config) {
 		cfg.DepAmts = []int64{100000}
 		cfg.DepFees = []int64{3}
 		cfg.Tokens = stdTokens(6)
+		cfg.Amounts = []int64{1_000_000_000_000_007} // 1000 external units + dust at 6 decimals
+		cfg.Fees = []int64{7_000_000_000_001}
 	case "C13":
 		cfg.Ops = opsSet("Next", "Send", "ReqBatch", "Exec", "Deposit", "ExtAdvance")
 		cfg.SendChains = []string{"ethereum", "minter", "bsc"}
@@ -788,16 +802,39 @@ func bridgeCfgFor(prop, tier string) (BridgeCfg, engine.Config) {
 		cfg.DepDests = []string{"hub", "minter", "ethereum"}
 		cfg.DepChains = []string{"ethereum", "minter"}
 		cfg.DepFees = []int64{0, 3}
-		cfg.Fees = []int64{7}
 		cfg.SendDenoms = []string{"hub"}
 		cfg.Tokens = stdTokens(6)
+		cfg.Amounts = []int64{1_000_000_000_000_007}
+		cfg.Fees = []int64{7_000_000_000_001}
 		cfg.Seeds = [][]engine.Op{{}, seedObserved}
 	}
 	return cfg, ec
 }
 
+func bridgeAssumptions(cfg BridgeCfg) []string {
+	return []string{
+		fmt.Sprintf("closed system: %d user(s), 3 honest validators of equal power voting every external event in one block, chains %v, tokens %v", cfg.Users, cfg.SendChains, cfg.Tokens),
+		"external chains are reference ledgers: the contract/multisig locks exactly the deposited amount, executes a batch only if its nonce is newer than the last executed one for the token and block height < timeout (Hub2.sol submitBatch), Minter executes batches in sequence order",
+		"claims are built as orchestrator/cosmos_gravity/src/build.rs and minter-connector/cosmos.CreateClaims build them (Amount=_amount, Fee=_fee)",
+		"circulating supply = total supply minus the balances of the module account and of the keyless temporary address; transfers to the governance cold-storage addresses are moves between custody locations",
+		"staking is a scripted table; alphabet and bounds as listed in coverage",
+	}
+}
+
 func init() {
-	for _, p := range []string{"C01", "C04", "C10", "C12", "C13"} {
+	Register("C01", MultiRunner(func(tier string) ([]MultiCase, []string) {
+		cfg, ec := bridgeCfgFor("C01", tier)
+		np := cfg
+		np.NoPrices = true
+		np.Seeds = [][]engine.Op{seedObserved}
+		np.Ops = opsSet("Next", "Send", "ReqBatch", "Exec", "Deposit")
+		np.DepDests = []string{"hub"}
+		np.DepChains = []string{"ethereum"}
+		ec2 := ec
+		ec2.Deadline = ec.Deadline / 3
+		return []MultiCase{{Name: "oracle prices present", Spec: NewBridge(cfg), Cfg: ec}, {Name: "no oracle prices yet", Spec: NewBridge(np), Cfg: ec2}}, bridgeAssumptions(cfg)
+	}))
+	for _, p := range []string{"C04", "C10", "C12", "C13"} {
 		prop := p
 		Register(prop, BFSRunner(func(tier string) (Spec, engine.Config, []string) {
 			cfg, ec := bridgeCfgFor(prop, tier)
